@@ -37,10 +37,13 @@ EXTENDS Terminal
 
 (* ---------------------------------------------------------------- pieces *)
 
-Leaf(kind, wid, ch, x, y, cw, chh) ==
+\* fl = 1: the leaf was rendered as a FLOW widget (size (cols,)), 0: as a box widget - urwid
+\* caches the two renders separately, so they are different canvas objects even at equal size
+LeafF(kind, wid, ch, x, y, cw, chh, fl) ==
   IF cw <= 0 \/ chh <= 0 THEN {}
   ELSE {[kind |-> kind, w |-> wid, ch |-> ch, row |-> y, col |-> x, tl |-> 0, tt |-> 0,
-         cols |-> cw, rows |-> chh, cw |-> cw, chh |-> chh]}
+         cols |-> cw, rows |-> chh, cw |-> cw, chh |-> chh, fl |-> fl]}
+Leaf(kind, wid, ch, x, y, cw, chh) == LeafF(kind, wid, ch, x, y, cw, chh, 0)
 
 \* part of piece p inside screen rows r1..r2-1 and columns c1..c2-1
 Clip(p, r1, r2, c1, c2) ==
@@ -69,8 +72,8 @@ RECURSIVE SemCols(_, _, _, _, _, _)
 RECURSIVE SemList(_, _, _, _, _, _, _, _)
 
 FlowLeaf(wd, n, x, y, w) ==
-  IF n.k = "img" THEN Leaf("img", n.wid, 0, x, y, w, wd[n.wid].nh)
-  ELSE Leaf("txt", 0, n.ch, x, y, w, 1)
+  IF n.k = "img" THEN LeafF("img", n.wid, 0, x, y, w, wd[n.wid].nh, 1)
+  ELSE LeafF("txt", 0, n.ch, x, y, w, 1, 1)
 
 Sem(wd, n, x, y, w, h) ==
   CASE n.k = "txt" -> Leaf("txt", 0, n.ch, x, y, w, h)
@@ -183,10 +186,10 @@ Shown(T, gfx) ==
 
 (* -------------------------------------------------- library side: cviews *)
 
-\* (widget, row, col, trim_left, trim_top, cols, rows) + canvas identity (cw, chh, gen); 1-based row/col
+\* (widget, row, col, trim_left, trim_top, cols, rows) + canvas identity (cw, chh, fl, gen); 1-based row/col
 ViewOf(wd, p) ==
   [w |-> p.w, row |-> p.row + 1, col |-> p.col + 1, tl |-> p.tl, tt |-> p.tt, cols |-> p.cols,
-   rows |-> p.rows, cw |-> p.cw, chh |-> p.chh, gen |-> wd[p.w].gen]
+   rows |-> p.rows, cw |-> p.cw, chh |-> p.chh, fl |-> p.fl, gen |-> wd[p.w].gen]
 
 ViewsOf(ident, wd, P) ==
   {ViewOf(wd, p) : p \in {q \in P : q.kind = "img" /\ Tracked(ident, wd[q.w].style)}}
